@@ -495,7 +495,7 @@ func (st *State) doPanic(f *Frame, x *ssa.Panic) {
 		return
 	}
 	c := st.frames[0].contract
-	if c != nil && c.MayPanic {
+	if c.mayPanic() {
 		st.dead = true
 		return
 	}
